@@ -62,7 +62,7 @@ def _phys_write(node: Node) -> Optional[str]:
 def vbc(repo: Repo) -> List[Ob]:
     obs: List[Ob] = []
     n_exits = 0
-    for fi in repo.all_functions():
+    for fi in repo.scan_functions():
         if fi.module.name not in STATE_MODULES or fi.node.name not in VBC_NAMES or fi.cls is None:
             continue
         props = ("C17", "C10") if fi.node.name in RESIZE_FAMILY else ("C17",)
